@@ -436,7 +436,9 @@ class World:
                 raise
             err = ex
         finally:
-            leaked = simmp.reap_all()
+            alive = simmp.collect()
+            if alive:
+                self.cov.inc('probe.pool_kept_alive_after_call')
         tr = simdisk.STATE['trace']
         # file names carry md5s (and, for curves without __repr__, object
         # addresses): the event log names files by order of first appearance
